@@ -40,6 +40,52 @@ fn c09_forward_matches_python() {
     kani::cover!(stop == Some(i64::MIN));
 }
 
+macro_rules! slice_bytes_e2e_harness {
+    ($name:ident, $step:expr) => {
+        #[kani::proof]
+        #[kani::unwind(8)]
+        #[kani::stub(alloc::fmt::format, crate::verif_common::format_stub)]
+        #[kani::stub(alloc::sync::Arc::drop_slow, crate::verif_common::arc_drop_slow_leak)]
+        fn $name() {
+            // the dispatcher itself: `b[start:stop:step]` on the byte string 0x0a 0x0b 0x0c for ANY i64 start and
+            // stop (each may also be omitted) and the listed step
+            let has_start: bool = kani::any();
+            let has_stop: bool = kani::any();
+            let a: i64 = kani::any();
+            let b: i64 = kani::any();
+            let start = if has_start { Some(a) } else { None };
+            let stop = if has_stop { Some(b) } else { None };
+            let v = Value::from_bytes(vec![10u8, 11, 12]);
+            let vs = if has_start { Value::from(a) } else { Value::from(()) };
+            let ve = if has_stop { Value::from(b) } else { Value::from(()) };
+            let r = slice(v, vs, ve, Value::from($step as i64));
+            let (first, st, count) = py_slice(3, start, stop, $step);
+            match r {
+                Ok(Value(ValueRepr::Bytes(ref out))) => {
+                    // same kind, exactly CPython's selection
+                    assert!(out.len() as u64 == count);
+                    let mut k = 0usize;
+                    while k < out.len() {
+                        let idx = first + (k as i128) * st;
+                        assert!(idx >= 0 && idx < 3 && out[k] == 10 + idx as u8);
+                        k += 1;
+                    }
+                }
+                _ => assert!(false),
+            }
+            kani::cover!(count == 2);
+            kani::cover!(count == 0 && has_start && a > 3);
+            core::mem::forget(r);
+        }
+    };
+}
+
+// @verif-block props=C09,C01 cap=900 group=core doc=ops::slice_end_to_end_on_a_3-byte_byte_string_for_ANY_i64_start/stop_(or_omitted)_and_the_listed_step:_the_result_is_a_byte_string_holding_exactly_CPython's_selection_-_no_panic_for_offsets_beyond_the_end
+slice_bytes_e2e_harness!(c09_slice_bytes_e2e_step1, 1); // tier=quick
+slice_bytes_e2e_harness!(c09_slice_bytes_e2e_step2, 2); // tier=thorough
+slice_bytes_e2e_harness!(c09_slice_bytes_e2e_step_m1, -1); // tier=thorough
+// @verif-end
+
 // @verif props=C09,C01 tier=quick cap=300 group=core fns=ops::range_step_backwards
 /// Backward slices: range_step_backwards yields exactly CPython's index
 /// sequence.  len <= 6, start/stop: any Option<i64>, step in [-(2^63-1), -1].
